@@ -2,7 +2,8 @@
 From SqlModel Require Import Base PyStr.
 From Coq Require Export ZArith.
 
-Record sstate := { in_declare : bool; in_case : bool; is_create : bool; begin_depth : Z }.
+(* _case_depth: how many CASE expressions are open (a counter since the fix of finding F39; the flag _in_case before) *)
+Record sstate := { in_declare : bool; case_depth : Z; is_create : bool; begin_depth : Z }.
 
 Fixpoint text_prefixb (p t : text) : bool :=
   match p, t with
